@@ -31,13 +31,15 @@ pub struct ThreadCase {
     park: bool,
     /// each script is run `rounds` times
     rounds: u16,
+    /// spin iterations of the receiver thread before each of its polls
+    rx_delay: u16,
     scripts: Vec<Vec<TOp>>,
     /// whether party i drops its voter at the end of its script (on its own thread)
     drops: Vec<bool>,
 }
 
 pub fn strategy() -> impl Strategy<Value = ThreadCase> {
-    (2u8..=3, any::<bool>(), any::<bool>(), 1u16..=40).prop_flat_map(|(parties, callers_only, park, rounds)| {
+    let general = (2u8..=3, any::<bool>(), any::<bool>(), 1u16..=40, 0u16..=64).prop_flat_map(|(parties, callers_only, park, rounds, rx_delay)| {
         let top = prop_oneof![6 => Just(TOp::V), 6 => Just(TOp::R), 1 => Just(TOp::Y)];
         (
             proptest::collection::vec(proptest::collection::vec(top, 1..=24), parties as usize),
@@ -48,10 +50,32 @@ pub fn strategy() -> impl Strategy<Value = ThreadCase> {
                 callers_only,
                 park,
                 rounds,
+                rx_delay,
                 scripts,
                 drops,
             })
-    })
+    });
+    // "Pulse" cases: everybody votes at once while a parked receiver makes its one and only poll after a
+    // generated delay: aims the completing vote at the inside of Receiver::poll (load / register / load).
+    let pulse = (2u8..=3, 0u16..=400, proptest::collection::vec(0u8..=3, 3)).prop_map(|(parties, rx_delay, pre)| ThreadCase {
+        parties,
+        callers_only: false,
+        park: true,
+        rounds: 1,
+        rx_delay,
+        scripts: (0..parties as usize)
+            .map(|i| {
+                let mut s = vec![TOp::Y; (pre[i] % 2) as usize];
+                if pre[i] >= 2 {
+                    s.extend([TOp::V, TOp::R]);
+                }
+                s.push(TOp::V);
+                s
+            })
+            .collect(),
+        drops: vec![false; parties as usize],
+    });
+    prop_oneof![3 => general, 2 => pulse]
 }
 
 #[derive(Default)]
@@ -163,13 +187,16 @@ enum RxEnd {
     Pending(usize),
 }
 
-fn rx_thread(shared: &Shared, park: bool, mut rx: Receiver, w: Arc<CountWaker>) -> (Receiver, RxEnd, u64) {
+fn rx_thread(shared: &Shared, park: bool, delay: u16, mut rx: Receiver, w: Arc<CountWaker>) -> (Receiver, RxEnd, u64) {
     let waker = Waker::from(w.clone());
     let mut cx = Context::from_waker(&waker);
     let mut polls = 0u64;
     shared.barrier.wait();
     loop {
         polls += 1;
+        for _ in 0..delay {
+            std::hint::spin_loop();
+        }
         // wake count BEFORE the poll: a wake that arrives at any time after the poll started counts
         let c0 = w.count();
         match Pin::new(&mut rx).poll(&mut cx) {
@@ -225,7 +252,8 @@ pub fn check(case: &ThreadCase) -> Verdict {
         let rxh = {
             let w = w.clone();
             let park = case.park;
-            scope.spawn(move || rx_thread(shared, park, rx, w))
+            let delay = case.rx_delay;
+            scope.spawn(move || rx_thread(shared, park, delay, rx, w))
         };
         let handles: Vec<_> = voters
             .into_iter()
